@@ -612,7 +612,8 @@ class BrownianInterval(brownian_base.BaseBrownian, _Interval):
         if ta > tb:
             raise RuntimeError(f"Query times ta={ta:.3f} and tb={tb:.3f} must respect ta <= tb.")
 
-        if ta == tb:
+        # (Compare at the resolution `tol` of the Brownian motion: an interval shorter than that has no increment.)
+        if self._round(ta) == self._round(tb):
             W = torch.zeros(self._size, dtype=self._dtype, device=self._device)
             H = None
             A = None
